@@ -173,46 +173,66 @@ Proof.
   assert (HO : In O' (gs (ao (alpha s)))).
   { apply gs_spec. unfold alpha, ao. simpl. apply ogone_gonef. }
   assert (AC : ac (alpha s) = s_cache s) by reflexivity.
-  pose proof (Hb (gonef w i) l cur) as B.
+  pose proof (Hb (unlisted w i) l cur) as B.
   unfold answer in H. unfold rwho in *.
   (* the generic argument for a refusable, class-driven access whose failure is decided by [fb] *)
   assert (GEN : forall fb x,
-            vanished w x cur i = failed fb G' O' ->
+            vanished w l x cur i = failed fb G' O' ->
             is_global x = false ->
-            ok_class (opt l) (w_base w (gonef w i) (l_kind l) x (l_file l) cur) = true ->
-            match (if vanished w x cur i then Err (vanish_errno (l_kind l))
+            ok_class (opt l) (w_base w (unlisted w i) (l_kind l) x (l_file l) cur) = true ->
+            match (if vanished w l x cur i then Err (vanish_errno (l_kind l))
                    else if negb (is_global x) && w_deny w i then Err EACCES
-                   else w_base w (gonef w i) (l_kind l) x (l_file l) cur) with
+                   else w_base w (unlisted w i) (l_kind l) x (l_file l) cur) with
             | Ok d => (SNormal, set_data (tick s (l_kind l) (l_file l) cur) d)
             | Err e => (SRaise (xc_of e), tick s (l_kind l) (l_file l) cur)
             end = (sg, s') ->
             In (abs_sig sg, alpha s') (acc_gen fb (live_sigs (opt l)) (l_kind l) (alpha s))).
   { intros fb x Hv Hgl Hc Ha. rewrite Hgl in Ha. simpl in Ha.
-    destruct (vanished w x cur i) eqn:V.
+    destruct (vanished w l x cur i) eqn:V.
     - inversion Ha; subst. rewrite A2. rewrite <- AC.
       apply acc_gen_in; [exact HG | exact HO | intros F; first [reflexivity | congruence | (simpl in F; discriminate)] | intros F; first [congruence | inl | exact Hc | discriminate]].
     - destruct (w_deny w i).
       + inversion Ha; subst. rewrite A2. rewrite <- AC.
         apply acc_gen_in; [exact HG | exact HO | intros F; first [reflexivity | congruence | (simpl in F; discriminate)] | intros F; first [congruence | inl | exact Hc | discriminate]].
       + apply class_sig in Hc.
-        destruct (w_base w (gonef w i) (l_kind l) x (l_file l) cur) as [d|e].
+        destruct (w_base w (unlisted w i) (l_kind l) x (l_file l) cur) as [d|e].
         * inversion Ha; subst. rewrite A1. rewrite <- AC.
           apply acc_gen_in; [exact HG | exact HO | intros F; first [reflexivity | congruence | (simpl in F; discriminate)] | intros F; first [congruence | inl | exact Hc | discriminate]].
         * inversion Ha; subst. rewrite A2. rewrite <- AC.
           apply acc_gen_in; [exact HG | exact HO | intros F; first [reflexivity | congruence | (simpl in F; discriminate)] | intros F; first [congruence | inl | exact Hc | discriminate]]. }
+  (* accesses on the object's own paths: /proc/<pid> itself may survive (half-removed mode) *)
+  assert (SELF : forall fb, gone_at w i = failed fb G' O' ->
+            ok_class (opt l) (w_base w (unlisted w i) (l_kind l) Self (l_file l) cur) = true /\
+            (w_half w = true -> is_piddir l = true -> opt l = DirSurvives) ->
+            match (if vanished w l Self cur i then Err (vanish_errno (l_kind l))
+                   else if negb (is_global Self) && w_deny w i then Err EACCES
+                   else w_base w (unlisted w i) (l_kind l) Self (l_file l) cur) with
+            | Ok d => (SNormal, set_data (tick s (l_kind l) (l_file l) cur) d)
+            | Err e => (SRaise (xc_of e), tick s (l_kind l) (l_file l) cur)
+            end = (sg, s') ->
+            In (abs_sig sg, alpha s')
+               (acc_gen fb (live_sigs (opt l)) (l_kind l) (alpha s)
+                ++ match opt l with DirSurvives => acc_gen ByNone (live_sigs (opt l)) (l_kind l) (alpha s) | _ => [] end)).
+  { intros fb Hfb [Hc Hd] Ha. apply in_or_app.
+    destruct (w_half w && is_piddir l) eqn:HD.
+    - apply andb_true_iff in HD. destruct HD as [Hh Hp]. pose proof (Hd Hh Hp) as Ho. rewrite Ho. right. rewrite <- Ho.
+      apply (GEN ByNone Self); auto.
+      simpl. rewrite Hh, Hp. simpl. apply andb_false_r.
+    - left. apply (GEN fb Self); auto.
+      simpl. rewrite HD. simpl. rewrite andb_true_r. exact Hfb. }
   unfold acc_who.
   destruct (l_who l) eqn:Hw.
-  - (* Self *) apply (GEN ByG Self); auto.
+  - (* Self *) apply (SELF ByG); auto.
   - (* Other *) apply (GEN ByO Other); auto.
   - (* Global *)
     simpl in H.
-    destruct (w_base w (gonef w i) (l_kind l) Global (l_file l) cur) as [d|e] eqn:Eb; [|discriminate].
+    destruct (w_base w (unlisted w i) (l_kind l) Global (l_file l) cur) as [d|e] eqn:Eb; [|discriminate].
     inversion H; subst. rewrite A1. rewrite <- AC.
     apply acc_gen_in; [exact HG | exact HO | intros F; first [reflexivity | congruence | (simpl in F; discriminate)] | intros F; first [congruence | inl | exact Hc | discriminate]].
   - (* Any *)
     destruct (String.eqb cur (w_self w)) eqn:E.
-    + apply (GEN ByO Self); auto. simpl. unfold O', gonef. rewrite E. reflexivity.
-    + apply (GEN ByO Other); auto.
+    + apply (SELF ByO); auto. simpl. unfold O', gonef. rewrite E. reflexivity.
+    + apply in_or_app. left. apply (GEN ByO Other); auto.
   - (* Ext *) apply (GEN ByNone Ext); auto.
 Qed.
 
